@@ -4,3 +4,5 @@ import TempestVerif.Props.C16
 import TempestVerif.Props.C07
 import TempestVerif.Props.C04
 import TempestVerif.Props.C12
+import TempestVerif.Props.C09
+import TempestVerif.Props.C06
